@@ -1330,3 +1330,322 @@ Proof.
   - intros r. split; [exact W|exact L].
   - intros a buf m' Ha E. destruct (write_raw_wf m a buf m' (conj W L) Ha E) as (A & B & _). split; assumption.
 Qed.
+
+(* ================================================================================ any register: frame ==== *)
+(* A typed write, whatever the register type and its declared length, returns a memory of the same size that
+   differs from the old one at most inside [ADDRESS, ADDRESS + LENGTH). *)
+Lemma default_write_frame r data raw raw' : 0 <= r_addr r -> 0 <= r_len r ->
+  (let? region := region_of r raw in if zlen data =? r_len r then Ok (splice_at (r_addr r) data raw) else Panic) = Ok raw' ->
+  zlen raw' = zlen raw /\ take (r_addr r) raw' = take (r_addr r) raw /\
+  drop (r_addr r + r_len r) raw' = drop (r_addr r + r_len r) raw.
+Proof.
+  intros H0 H1 H. destruct (region_of r raw) as [region| |] eqn:R; cbn [bind] in H; try discriminate.
+  destruct (region_of_ok r raw region R H0 H1) as [A B].
+  destruct (zlen data =? r_len r) eqn:E; [|discriminate]. apply Z.eqb_eq in E. apply Ok_inj in H. subst raw'.
+  split; [apply zlen_splice_at; lia|]. split; [apply splice_at_before; lia|].
+  rewrite <- E. apply splice_at_after; lia.
+Qed.
+
+Lemma reg_write_frame r v raw raw' : 0 <= r_addr r -> 0 <= r_len r -> reg_write r v raw = Ok raw' ->
+  zlen raw' = zlen raw /\ take (r_addr r) raw' = take (r_addr r) raw /\
+  drop (r_addr r + r_len r) raw' = drop (r_addr r + r_len r) raw.
+Proof.
+  intros H0 H1 H. unfold reg_write in H.
+  destruct (r_ty r) eqn:T; destruct v as [z|bs];
+    try (destruct (reg_serialize r _) as [data| |]; cbn [bind] in H; try discriminate;
+         exact (default_write_frame r data raw raw' H0 H1 H)).
+  destruct (expand_bf MACRO_W bits signed (r_endian r) rawlsb rawmsb) as [c|]; [|discriminate].
+  destruct (gen_masked_int true c z); cbn [bind] in H; try discriminate.
+  destruct (region_of r raw) as [region| |] eqn:R; cbn [bind] in H; try discriminate.
+  destruct (region_of_ok r raw region R H0 H1) as [A B].
+  destruct (gen_write true c (r_endian r) z region) as [region'| |] eqn:G; cbn [bind] in H; try discriminate.
+  apply Ok_inj in H. subst raw'.
+  assert (E : zlen region' = r_len r).
+  { unfold gen_write in G. destruct (gen_masked_int true c z); cbn [bind] in G; try discriminate.
+    destruct (read_scalar _ _ _ _); cbn [bind] in G; try discriminate.
+    destruct (gen_mask true c); cbn [bind] in G; try discriminate.
+    apply Ok_inj in G. subst region'. rewrite zlen_write_front. exact B. }
+  split; [apply zlen_splice_at; lia|]. split; [apply splice_at_before; lia|].
+  rewrite <- E. apply splice_at_after; lia.
+Qed.
+
+Lemma take_drop_take {A} (l : list A) a n b : 0 <= a -> 0 <= n -> a + n <= b ->
+  take n (drop a (take b l)) = take n (drop a l).
+Proof.
+  intros Ha Hn Hb. unfold take, drop.
+  replace (Z.to_nat b) with (Z.to_nat a + (Z.to_nat b - Z.to_nat a))%nat by lia.
+  rewrite <- firstn_skipn_comm. rewrite firstn_firstn. f_equal. lia.
+Qed.
+
+(* the bytes of any register that lies entirely before or entirely behind the written register are unchanged,
+   so every typed read of such a register returns what it returned before *)
+Lemma disjoint_register_unchanged r v raw raw' r2 :
+  0 <= r_addr r -> 0 <= r_len r -> reg_write r v raw = Ok raw' ->
+  0 <= r_addr r2 -> 0 <= r_len r2 ->
+  r_addr r2 + r_len r2 <= r_addr r \/ r_addr r + r_len r <= r_addr r2 ->
+  region_of r2 raw' = region_of r2 raw /\ reg_read r2 raw' = reg_read r2 raw.
+Proof.
+  intros H0 H1 H A0 A1 D. destruct (reg_write_frame r v raw raw' H0 H1 H) as (L & B & C).
+  assert (E : region_of r2 raw' = region_of r2 raw).
+  { unfold region_of. rewrite L. destruct (zlen raw <? r_addr r2 + r_len r2); [reflexivity|]. f_equal.
+    destruct D as [D|D].
+    - rewrite <- (take_drop_take raw' (r_addr r2) (r_len r2) (r_addr r)) by lia.
+      rewrite <- (take_drop_take raw (r_addr r2) (r_len r2) (r_addr r)) by lia. now rewrite B.
+    - replace (r_addr r2) with ((r_addr r + r_len r) + (r_addr r2 - (r_addr r + r_len r))) by lia.
+      rewrite <- (drop_drop (r_addr r + r_len r) (r_addr r2 - (r_addr r + r_len r)) raw') by lia.
+      rewrite <- (drop_drop (r_addr r + r_len r) (r_addr r2 - (r_addr r + r_len r)) raw) by lia. now rewrite C. }
+  split; [exact E|]. unfold reg_read. now rewrite E.
+Qed.
+
+(* ================================================================================ accepted declarations == *)
+Definition reg_accepts (r : reg) : bool :=
+  decl_accepts true (r_endian r)
+    {| rd_len := r_len r; rd_acc := r_acc r; rd_ty := r_ty r; rd_off := None; rd_init := r_init r |}.
+
+(* the vocabulary of the Rust declaration: integer types are 8..64 bit wide, LSB/MSB are usize literals *)
+Definition ty_vocab (t : regty) : Prop :=
+  match t with
+  | TInt bits _ => ty_bits_ok bits
+  | TBitField bits _ rl rm => ty_bits_ok bits /\ 0 <= rl /\ 0 <= rm
+  | _ => True
+  end.
+
+Lemma accepted_len e rd : decl_accepts true e rd = true ->
+  match ty_size (rd_ty rd) with Some n => rd_len rd = n | None => True end.
+Proof.
+  unfold decl_accepts. intros H. apply andb_true_iff in H. destruct H as [_ H].
+  destruct (ty_size (rd_ty rd)); [now apply Z.eqb_eq|exact I].
+Qed.
+
+Lemma map_accepts_regs md : map_accepts true md = true ->
+  forall r, In r (all_regs md) -> reg_accepts r = true.
+Proof.
+  intros H r Hr. unfold all_regs in Hr. apply in_flat_map in Hr. destruct Hr as [f [Hf Hr]].
+  assert (Hm : forallb (frag_accepts true) md = true) by (destruct md; [discriminate|exact H]).
+  rewrite forallb_forall in Hm. specialize (Hm f Hf). unfold frag_accepts in Hm.
+  assert (Hq : forallb (decl_accepts true (fd_endian f)) (fd_regs f) = true) by (destruct (fd_regs f); [discriminate|exact Hm]).
+  rewrite forallb_forall in Hq.
+  unfold frag_regs in Hr. apply in_map_iff in Hr. destruct Hr as [[o rd] [<- Hin]].
+  apply in_combine_r in Hin. specialize (Hq rd Hin). unfold reg_accepts. cbn [r_endian r_len r_acc r_ty r_init].
+  unfold decl_accepts in *. cbn [rd_ty rd_len]. exact Hq.
+Qed.
+
+Lemma expand_some_ok bits sg e rl rm : ty_bits_ok bits -> 0 <= rl -> 0 <= rm ->
+  expand_bf MACRO_W bits sg e rl rm <> None -> bf_ok bits (norm_pos bits e rl) (norm_pos bits e rm).
+Proof.
+  intros Hb Hl Hm H. unfold expand_bf, mt_pos in H. unfold bf_ok. split; [exact Hb|].
+  destruct e; cbn [norm_pos].
+  - destruct ((rm <? rl) || (bits <=? rm)) eqn:C; [congruence|]. apply orb_false_iff in C. lia.
+  - destruct (0 <=? bits - rl - 1) eqn:A; [|congruence]. destruct (0 <=? bits - rm - 1) eqn:B; [|congruence].
+    destruct ((bits - rm - 1 <? bits - rl - 1) || (bits <=? bits - rm - 1)) eqn:C; [congruence|].
+    apply orb_false_iff in C. lia.
+Qed.
+
+Lemma accepted_bitfield r bits sg rl rm : reg_accepts r = true -> r_ty r = TBitField bits sg rl rm ->
+  ty_vocab (r_ty r) ->
+  bf_ok bits (norm_pos bits (r_endian r) rl) (norm_pos bits (r_endian r) rm) /\ r_len r = bits / 8.
+Proof.
+  intros H T V. rewrite T in V. destruct V as (Hb & Hl & Hm). unfold reg_accepts, decl_accepts in H.
+  cbn [rd_ty rd_len] in H. rewrite T in H. cbn [ty_size] in H. apply andb_true_iff in H. destruct H as [H1 H2].
+  split; [|now apply Z.eqb_eq]. apply (expand_some_ok bits sg); try assumption.
+  destruct (expand_bf MACRO_W bits sg (r_endian r) rl rm); [discriminate|discriminate H1].
+Qed.
+
+(* the values a Rust program can pass / the values that round-trip exactly *)
+Definition value_typed (r : reg) (v : value) : Prop :=
+  match r_ty r, v with
+  | TInt bits sg, VInt z => t_in bits sg z = true
+  | TBitField bits sg _ _, VInt z => t_in bits sg z = true
+  | TF32, VInt z => t_in 32 false z = true
+  | TF64, VInt z => t_in 64 false z = true
+  | TStr, VBytes _ => True
+  | TBytes, VBytes _ => True
+  | _, _ => False
+  end.
+
+Definition value_fits (r : reg) (v : value) : Prop :=
+  match r_ty r, v with
+  | TInt bits sg, VInt z => t_in bits sg z = true
+  | TBitField bits sg rl rm, VInt z =>
+    f_min sg (norm_pos bits (r_endian r) rl) (norm_pos bits (r_endian r) rm) <= z <=
+    f_max sg (norm_pos bits (r_endian r) rl) (norm_pos bits (r_endian r) rm)
+  | TF32, VInt z => t_in 32 false z = true
+  | TF64, VInt z => t_in 64 false z = true
+  | TStr, VBytes s => is_ascii s = true /\ zlen s <= r_len r /\ Forall (fun b => b <> 0) s
+  | TBytes, VBytes s => zlen s = r_len r
+  | _, _ => False
+  end.
+
+Lemma accepted_scalar r : reg_accepts r = true -> ty_vocab (r_ty r) ->
+  forall bits sg, (r_ty r = TInt bits sg \/ (r_ty r = TF32 /\ bits = 32 /\ sg = false) \/ (r_ty r = TF64 /\ bits = 64 /\ sg = false)) ->
+  is_scalar_ty (r_ty r) bits sg /\ r_len r = bits / 8.
+Proof.
+  intros H V bits sg T. unfold reg_accepts, decl_accepts in H. cbn [rd_ty rd_len] in H.
+  apply andb_true_iff in H. destruct H as [_ H]. unfold is_scalar_ty.
+  destruct T as [T|[[T [-> ->]]|[T [-> ->]]]]; rewrite T in *; cbn [ty_size ty_vocab] in *; apply Z.eqb_eq in H.
+  - split; [left; auto|exact H].
+  - split; [right; left; auto|exact H].
+  - split; [right; right; auto|exact H].
+Qed.
+
+(* every register of an accepted map: a fitting value is written, reads back exactly, nothing outside the register
+   changes *)
+Lemma accepted_roundtrip r v raw : reg_accepts r = true -> ty_vocab (r_ty r) -> value_fits r v ->
+  0 <= r_addr r -> 0 <= r_len r -> r_addr r + r_len r <= zlen raw -> bytes_ok raw ->
+  exists raw', reg_write r v raw = Ok raw' /\ reg_read r raw' = Ok v /\ zlen raw' = zlen raw /\
+    take (r_addr r) raw' = take (r_addr r) raw /\ drop (r_addr r + r_len r) raw' = drop (r_addr r + r_len r) raw.
+Proof.
+  intros Hacc V F H0 H1 H2 Hok. unfold value_fits in F.
+  destruct (r_ty r) eqn:T; destruct v as [z|s]; try contradiction.
+  - (* String *) destruct F as (Fa & Fl & Fn).
+    destruct (proj1 (string_roundtrip r s raw T H0 H2) Fa Fl) as (raw' & W & L & R & B & C).
+    exists raw'. rewrite (until_nul_no_nul s Fn) in R. auto.
+  - (* Bytes *) destruct (proj1 (bytes_roundtrip r s raw T H0 H2) F) as (raw' & W & L & R & B & C).
+    exists raw'. auto.
+  - (* integers *) rewrite <- T in V.
+    destruct (accepted_scalar r Hacc V bits signed (or_introl T)) as [S Ln].
+    destruct (scalar_roundtrip r bits signed z raw S Ln F H0 H2) as (raw' & W & L & R & B & C & _).
+    exists raw'. auto.
+  - rewrite <- T in V. destruct (accepted_scalar r Hacc V 32 false (or_intror (or_introl (conj T (conj eq_refl eq_refl))))) as [S Ln].
+    destruct (scalar_roundtrip r 32 false z raw S Ln F H0 H2) as (raw' & W & L & R & B & C & _).
+    exists raw'. auto.
+  - rewrite <- T in V. destruct (accepted_scalar r Hacc V 64 false (or_intror (or_intror (conj T (conj eq_refl eq_refl))))) as [S Ln].
+    destruct (scalar_roundtrip r 64 false z raw S Ln F H0 H2) as (raw' & W & L & R & B & C & _).
+    exists raw'. auto.
+  - (* BitField *) rewrite <- T in V. destruct (accepted_bitfield r bits signed rawlsb rawmsb Hacc T V) as [Bf Ln].
+    destruct (bitfield_register r bits signed rawlsb rawmsb raw T Bf Ln H0 H2 Hok) as (_ & _ & Wr).
+    destruct (Wr z F) as (raw' & W & L & R & B & C & _). exists raw'. auto.
+Qed.
+
+(* typed access to a register of an accepted map never panics, whatever value of the register's Rust type is
+   written and whatever the memory holds *)
+Lemma accepted_never_panics r v raw : reg_accepts r = true -> ty_vocab (r_ty r) -> value_typed r v ->
+  0 <= r_addr r -> 0 <= r_len r -> r_addr r + r_len r <= zlen raw -> bytes_ok raw ->
+  reg_write r v raw <> Panic /\ reg_read r raw <> Panic.
+Proof.
+  intros Hacc V F H0 H1 H2 Hok.
+  assert (Hreg : region_of r raw = Ok (take (r_len r) (drop (r_addr r) raw))).
+  { unfold region_of. destruct (zlen raw <? r_addr r + r_len r) eqn:E; [lia|reflexivity]. }
+  unfold value_typed in F.
+  destruct (r_ty r) eqn:T; destruct v as [z|s]; try contradiction.
+  - (* String *) split.
+    + destruct (is_ascii s) eqn:A.
+      * destruct (Z_le_gt_dec (zlen s) (r_len r)) as [L|L].
+        -- destruct (proj1 (string_roundtrip r s raw T H0 H2) A L) as (raw' & W & _). rewrite W. discriminate.
+        -- rewrite (proj2 (string_roundtrip r s raw T H0 H2)) by (right; lia). discriminate.
+      * rewrite (proj2 (string_roundtrip r s raw T H0 H2)) by (left; exact A). discriminate.
+    + unfold reg_read. rewrite Hreg. cbn [bind]. unfold reg_parse. rewrite T.
+      destruct (is_ascii _); discriminate.
+  - (* Bytes *) split.
+    + destruct (Z.eq_dec (zlen s) (r_len r)) as [L|L].
+      * destruct (proj1 (bytes_roundtrip r s raw T H0 H2) L) as (raw' & W & _). rewrite W. discriminate.
+      * rewrite (proj2 (bytes_roundtrip r s raw T H0 H2) L). discriminate.
+    + unfold reg_read. rewrite Hreg. cbn [bind]. unfold reg_parse. rewrite T. discriminate.
+  - rewrite <- T in V. destruct (accepted_scalar r Hacc V bits signed (or_introl T)) as [S Ln]. split.
+    + destruct (scalar_roundtrip r bits signed z raw S Ln F H0 H2) as (raw' & W & _). rewrite W. discriminate.
+    + unfold reg_read. rewrite Hreg. cbn [bind]. unfold reg_parse. rewrite T. unfold read_scalar.
+      destruct (_ <? _); discriminate.
+  - rewrite <- T in V. destruct (accepted_scalar r Hacc V 32 false (or_intror (or_introl (conj T (conj eq_refl eq_refl))))) as [S Ln]. split.
+    + destruct (scalar_roundtrip r 32 false z raw S Ln F H0 H2) as (raw' & W & _). rewrite W. discriminate.
+    + unfold reg_read. rewrite Hreg. cbn [bind]. unfold reg_parse. rewrite T. unfold read_scalar.
+      destruct (_ <? _); discriminate.
+  - rewrite <- T in V. destruct (accepted_scalar r Hacc V 64 false (or_intror (or_intror (conj T (conj eq_refl eq_refl))))) as [S Ln]. split.
+    + destruct (scalar_roundtrip r 64 false z raw S Ln F H0 H2) as (raw' & W & _). rewrite W. discriminate.
+    + unfold reg_read. rewrite Hreg. cbn [bind]. unfold reg_parse. rewrite T. unfold read_scalar.
+      destruct (_ <? _); discriminate.
+  - rewrite <- T in V. destruct (accepted_bitfield r bits signed rawlsb rawmsb Hacc T V) as [Bf Ln].
+    destruct (bitfield_register r bits signed rawlsb rawmsb raw T Bf Ln H0 H2 Hok) as (Rd & Er & Wr). split.
+    + set (l := norm_pos bits (r_endian r) rawlsb) in *. set (m := norm_pos bits (r_endian r) rawmsb) in *.
+      destruct (Z_lt_ge_dec z (f_min signed l m)) as [A|A]; [rewrite (Er z (or_introl A)); discriminate|].
+      destruct (Z_lt_ge_dec (f_max signed l m) z) as [B|B]; [rewrite (Er z (or_intror B)); discriminate|].
+      destruct (Wr z ltac:(lia)) as (raw' & W & _). rewrite W. discriminate.
+    + rewrite Rd. discriminate.
+Qed.
+
+(* ---- what the pinned macro accepted: a numerical register of any length ---- *)
+Lemma scalar_mismatch_v0 r bits sg z raw : is_scalar_ty (r_ty r) bits sg -> r_len r <> bits / 8 ->
+  0 <= r_addr r -> r_addr r + r_len r <= zlen raw ->
+  decl_accepts false (r_endian r)
+    {| rd_len := r_len r; rd_acc := r_acc r; rd_ty := r_ty r; rd_off := None; rd_init := r_init r |} = true /\
+  reg_accepts r = false /\
+  reg_write r (VInt z) raw = Panic /\
+  (r_len r < bits / 8 -> reg_read r raw = Err ME_INVALID_DATA).
+Proof.
+  intros S Hl H0 H2.
+  assert (Hb : ty_bits_ok bits).
+  { destruct S as [[_ H]|[[_ [-> _]]|[_ [-> _]]]]; [exact H|right; right; left; reflexivity|right; right; right; reflexivity]. }
+  pose proof (bits_pos bits Hb) as [P1 P2].
+  assert (Hreg : region_of r raw = Ok (take (r_len r) (drop (r_addr r) raw))).
+  { unfold region_of. destruct (zlen raw <? r_addr r + r_len r) eqn:E; [lia|reflexivity]. }
+  split; [|split; [|split]].
+  - unfold decl_accepts. cbn [rd_ty]. destruct S as [[-> _]|[[-> _]|[-> _]]]; reflexivity.
+  - unfold reg_accepts, decl_accepts. cbn [rd_ty rd_len].
+    destruct S as [[-> _]|[[-> [-> _]]|[-> [-> _]]]]; cbn [ty_size andb]; apply Z.eqb_neq; exact Hl.
+  - unfold reg_write.
+    replace (match r_ty r with TBitField _ _ _ _ => _ | _ => _ end) with
+      (let? data := reg_serialize r (VInt z) in let? region := region_of r raw in
+       if zlen data =? r_len r then Ok (splice_at (r_addr r) data raw) else Panic)
+      by (destruct S as [[-> _]|[[-> _]|[-> _]]]; reflexivity).
+    assert (Hser : reg_serialize r (VInt z) = Ok (t_to_bytes bits (r_endian r) z)).
+    { unfold reg_serialize. destruct S as [[-> _]|[[-> [-> _]]|[-> [-> _]]]]; reflexivity. }
+    rewrite Hser. cbn [bind]. rewrite Hreg. cbn [bind]. rewrite zlen_t_to_bytes by lia.
+    destruct (bits / 8 =? r_len r) eqn:E; [lia|reflexivity].
+  - intros Hs. unfold reg_read. rewrite Hreg. cbn [bind].
+    assert (Hz : zlen (take (r_len r) (drop (r_addr r) raw)) <= r_len r \/ r_len r < 0).
+    { destruct (Z_lt_ge_dec (r_len r) 0); [right; lia|left]. rewrite zlen_take; [lia|]. rewrite zlen_drop by lia. lia. }
+    assert (Hp : read_scalar bits sg (r_endian r) (take (r_len r) (drop (r_addr r) raw)) = Err ME_INVALID_DATA).
+    { unfold read_scalar. destruct (_ <? bits / 8) eqn:E; [reflexivity|]. apply Z.ltb_ge in E.
+      destruct Hz as [Hz|Hz]; [exfalso; clear - Hz Hs E; lia|]. unfold take in E. replace (Z.to_nat (r_len r)) with O in E by lia.
+      cbn [firstn] in E. unfold zlen in E. cbn [length] in E.
+      assert (1 <= bits / 8) by (destruct Hb as [->|[->|[->| ->]]]; cbn; lia). lia. }
+    unfold reg_parse. destruct S as [[-> _]|[[-> [E1 E2]]|[-> [E1 E2]]]]; subst; rewrite Hp; reflexivity.
+Qed.
+
+Lemma mismatched_len_v0_refuted :
+  let r := {| r_addr := 0; r_len := 4; r_acc := RW; r_ty := TInt 16 false; r_endian := BE; r_init := None |} in
+  let s := {| r_addr := 0; r_len := 1; r_acc := RW; r_ty := TBitField 16 false 11 4; r_endian := BE; r_init := None |} in
+  decl_accepts false BE {| rd_len := 4; rd_acc := RW; rd_ty := TInt 16 false; rd_off := None; rd_init := None |} = true /\
+  reg_write r (VInt 7) [1; 2; 3; 4] = Panic /\ reg_accepts r = false /\
+  reg_read s [1; 2; 3; 4] = Err ME_INVALID_DATA /\ reg_write s (VInt 1) [1; 2; 3; 4] = Err ME_INVALID_DATA /\
+  reg_accepts s = false.
+Proof. vm_compute. repeat split; reflexivity. Qed.
+
+(* ================================================================================ further facts ========== *)
+(* typed access is machine-side: it does not look at the access rights *)
+Lemma typed_access_ignores_rights raw p p' obs r v :
+  mem_read {| m_raw := raw; m_prot := p; m_obs := obs |} r = mem_read {| m_raw := raw; m_prot := p'; m_obs := obs |} r /\
+  omap m_raw (mem_write {| m_raw := raw; m_prot := p; m_obs := obs |} r v) =
+  omap m_raw (mem_write {| m_raw := raw; m_prot := p'; m_obs := obs |} r v).
+Proof.
+  split; [reflexivity|]. unfold mem_write. cbn [m_raw m_obs m_prot].
+  destruct (reg_write r v raw); reflexivity.
+Qed.
+
+(* registers declared without explicit offsets follow each other without gap or overlap *)
+Lemma running_offsets regs : forall run, Forall (fun r => rd_off r = None) regs ->
+  forall i r o, nth_error regs i = Some r -> nth_error (offsets regs run) i = Some o ->
+  o = run + fold_left Z.add (map rd_len (firstn i regs)) 0.
+Proof.
+  induction regs as [|r0 rest IH]; intros run H i r o Hr Ho; [destruct i; discriminate|].
+  inversion H as [|? ? Hn Hrest]; subst. cbn [offsets] in Ho. rewrite Hn in Ho.
+  destruct i as [|i]; cbn [nth_error firstn map fold_left] in *.
+  - injection Ho as <-. lia.
+  - rewrite (IH (run + rd_len r0) Hrest i r o Hr Ho).
+    assert (G : forall l a, fold_left Z.add l a = a + fold_left Z.add l 0).
+    { induction l as [|x l IHl]; intros a; cbn [fold_left]; [lia|]. rewrite (IHl (a + x)), (IHl (0 + x)). lia. }
+    rewrite (G _ (0 + rd_len r0)). lia.
+Qed.
+
+(* on a memory built from an accepted map, typed access to any of its registers never panics *)
+Lemma accepted_map_access md m r v : map_accepts true md = true -> regs_ok md ->
+  mem_wf m -> p_size (m_prot m) = mem_size md -> bytes_ok (m_raw m) ->
+  In r (all_regs md) -> ty_vocab (r_ty r) -> value_typed r v ->
+  mem_write m r v <> Panic /\ mem_read m r <> Panic.
+Proof.
+  intros Ha Hr [W L] Hs Hok Hin V F.
+  pose proof (map_accepts_regs md Ha r Hin) as Acc.
+  unfold regs_ok in Hr. rewrite Forall_forall in Hr. destruct (Hr r Hin) as [H0 H1].
+  pose proof (reg_in_memory md r Hin) as Hm. unfold reg_end in Hm.
+  destruct (accepted_never_panics r v (m_raw m) Acc V F H0 H1 ltac:(lia) Hok) as [A B].
+  split; [|exact B]. unfold mem_write. destruct (reg_write r v (m_raw m)); cbn [bind]; [discriminate|discriminate|contradiction].
+Qed.
